@@ -3,19 +3,38 @@
 Streams
   corr.structural   real `Template.code` (parsed with `ast`, canonicalised: writes, pushes/pops, try/finally/except,
                     loops, def boundaries) vs the S-expression of the Lean `codegenModule` - every try/finally
-                    pair and the order of the pops, for every generated template;
+                    pair and the order of the pops, for every generated template and the fixed witnesses;
   corr.behaviour    for every generated template set x EVERY crash point (evaluation points: boom(), filter
                     functions, decorators, while tests, argument evaluation) x handler (none = caller of
                     render_context, error_handler True/False, include_error_handler True/False,
                     format_exceptions, `% try` wrapped around ancestors of the raising node): outcome, output
                     (followed by a Context.write), stack depths read from the real Context
                     (len(_buffer_stack), len(caller_stack), nextcaller) and the counter - real mako vs the Lean
-                    pipeline (codegen -> exec), and vs the Lean `Spec.render`;
-  oracle.*          the same runs judged by the independent Python reference renderer (harness/ref_render.py:
+                    pipeline (codegen -> exec);
+  corr.spec         the same runs vs the Lean `Spec.render` (output and outcome only; it has no stacks);
+  oracle.behaviour / oracle.second_render
+                    the same runs judged by the independent Python reference renderer (harness/ref_render.py:
                     lexical, stack-free, written from the property text) - no Lean involved: output after the
                     handled exception, depths restored, exception identity, second render of the same Template;
   oracle.handwritten  fixed templates for constructs outside the tree grammar (inheritance, namespaces,
-                    supports_caller python defs): invariants only (depths, second render, exception identity).
+                    supports_caller python defs): invariants only (depths, second render, exception identity);
+  oracle.format_exceptions  unhandled exception x format_exceptions on/off x entry point (render,
+                    render_unicode, render_context; with and without output_encoding) x template relation
+                    (plain, call/capture, include, namespace, inheritance chains with raise points in child,
+                    parent, blocks, defs): the error page only, or the very exception object;
+  corr.shared_stack the context `_render_error` works on shares the caller's `_buffer_stack` list, and the caller
+                    sees what the Lean heap model `renderErrorHeap` says (driver op `tgt sharedstack`);
+  corr.exception_object / oracle.exception_object
+                    which OBJECT reaches the caller (identity, class, constructor arguments) for exceptions inside
+                    and outside `Exception` under error_handler results True/False/None/0/'', format_exceptions,
+                    include_error_handler - vs the Lean `renderErrorObj` / `includeErrorObj` and vs the property text;
+  corr.literal / oracle.literal
+                    lex -> tmplOfTokens -> codegen -> exec (driver op `tgt literal`) on directive-free and text-only
+                    sources vs the real render (theorem `render_literal` in Props/C01.lean);
+  corr.escapes / oracle.escapes
+                    sources constructed from the documented escapes (backslash-newline, `##` lines, <%doc>,
+                    line-leading %%, <%text>) with their expected text by construction, vs the real render and the
+                    same Lean pipeline (theorems `render_escape_tokens`, `render_documented_escapes_partial`).
 """
 from __future__ import annotations
 
@@ -31,11 +50,14 @@ from harness.common import dec, enc
 RULE = ("template sets (1-3 templates, include edges) from the grammar of harness/gen_template.py: text, ${expr | "
         "filters}, % if/for/while/try, <%def> (plain/buffered/filtered/cached/decorated, top-level and nested), "
         "<%block> (anonymous/named), <%call> with body, args and nested defs, capture(), <%text filter>, "
-        "<%include>, loop.index, return/break/continue; for each set every crash point 0..N (N = evaluation points "
-        "of the crash-free render, capped) x handlers {render_context caller, error_handler T/F, "
-        "include_error_handler T/F, format_exceptions, % try around ancestors of the raising node}; a case is "
-        "non-trivial when the exception is raised inside at least one pushed buffer/frame/loop or a handler "
-        "swallows it; distinct = distinct (template set, crash point, handler)")
+        "<%include>, loop.index, return/break/continue, plus fixed witnesses (nested <%call> in the argument list of "
+        "a call with content); for each set every crash point 0..N (N = evaluation points of the crash-free render, "
+        "capped at 30 quick / 80 thorough) x handlers {render_context caller, error_handler T/F, "
+        "include_error_handler T/F, format_exceptions, % try around ancestors of the raising node}; hand-written "
+        "families for format_exceptions x entry point x inheritance/include/namespace, exception objects outside "
+        "Exception, literal and escape-only sources; a case is non-trivial when the exception is raised inside at "
+        "least one pushed buffer/frame/loop or a handler swallows it; distinct = distinct (template set, crash "
+        "point, handler) resp. distinct source")
 ASSUMPTIONS = [
     "asynchronous exceptions (between two bytecodes of a prologue) are outside the crash-point granularity",
     "templates are well-scoped, non-recursive, binders have unique names (then the model's dynamic variable chain "
@@ -43,6 +65,12 @@ ASSUMPTIONS = [
     "matters (listed in gen_template.Knobs; reported for C05/C03)",
     "the cache is a pass-through (cache_enabled=False); cache back ends are C17's subject",
     "CPython's execution of the generated module is the assumed target semantics (validated by corr.behaviour)",
+    "not modelled in Lean, covered by oracle streams on the implementation only: inheritance chains, namespaces of "
+    "other templates (<%namespace file>, <%ns:def>), python-module defs wrapped with runtime.supports_caller "
+    "(DESIGN section 6 lists supports_caller under M for C05/C13; its push_frame/try/finally/pop_frame has the "
+    "shape of a plain def, but no Lean definition stands for it)",
+    "the error-page replacement is modelled on a separate heap of shared buffer-stack lists (renderErrorHeap), not "
+    "inside execTemplate, which has a single context",
 ]
 TRUSTED_EXTRA = ["C13: harness/target_canon.py (canonical structure of generated code), harness/gen_template.py, "
                  "harness/ref_render.py (reference renderer = oracle), harness/tmpl_rt.py (exception oracle)"]
@@ -551,6 +579,7 @@ def literal(ctx, drv):
     (theorem `render_literal` in Props/C01.lean); for any source whose tokens are all text both must agree."""
     from mako.template import Template
     st = ctx.stream("corr.literal")
+    so = ctx.stream("oracle.literal", "oracle")
     rng = ctx.rng
     n = 4000 if ctx.quick else 60000
     srcs = ["", "a", "\n", "\r\n", "a\r\nb\r", "x % y ## z", " %", "50% of <b> & {x} $ y", "\u00e9\u4e16\U0001f600\n"]
@@ -578,6 +607,7 @@ def literal(ctx, drv):
         ctx.branch("literal:plain" if plain else "literal:text-tokens-only")
         if plain:
             ctx.nontriv(("literal", src))
+            so["cases"] += 1
             if impl != ("val", src):
                 ctx.violation("literal-text-not-reproduced", {"input": src}, {"rendered": impl}, "oracle.literal")
         if lexok and model != impl:
@@ -698,7 +728,7 @@ FE_FAMILIES = {
 }
 
 
-def format_exceptions_entries(ctx):
+def format_exceptions_entries(ctx, drv=None):
     """unhandled exception x format_exceptions x entry point (render, render_unicode, render_context; with and
     without output_encoding) x template relation (plain, include, namespace, inheritance chains; raise in child,
     parent, block, def): with format_exceptions the result is the error page ONLY (nothing in front of it, the
@@ -710,6 +740,7 @@ def format_exceptions_entries(ctx):
     import mako.runtime as R
     so = ctx.stream("oracle.format_exceptions", "oracle")
     st = ctx.stream("corr.shared_stack")
+    model_shared = {}
 
     def page_only(text):
         t = text.lstrip()
@@ -801,12 +832,21 @@ def format_exceptions_entries(ctx):
                             ctx.violation("format-exceptions-no-error-page", case,
                                           {"got": (out or "")[:300], "starts_with_page": is_page,
                                            "names_exception": names_exc}, "oracle.format_exceptions")
-                        # the failing callable's context is an alias: same list object as the caller's
-                        if seen and user_ctx is not None:
+                        # the failing callable's context is an alias of the caller's: same list object, and the
+                        # caller sees what the heap model (`renderErrorHeap`, driver op `tgt sharedstack`) says
+                        if seen and user_ctx is not None and drv is not None:
                             st["cases"] += 1
+                            top = user_ctx._buffer_stack[-1].getvalue() if user_ctx._buffer_stack else ""
+                            if isinstance(top, bytes):
+                                top = top.decode("utf-8", "replace")
+                            tp, te = page_only(top)
+                            impl = "%d %d" % (len(user_ctx._buffer_stack), 1 if (tp and te) else 0)
+                            model = model_shared.setdefault("x", drv.ask("tgt sharedstack 3"))
                             if seen[0]._buffer_stack is not user_ctx._buffer_stack:
                                 ctx.disagree("corr.shared_stack", case, "the error path's context shares the caller's list",
                                              "a different list object")
+                            elif impl != model:
+                                ctx.disagree("corr.shared_stack", case, model, impl)
             for tt in ts:
                 tt.format_exceptions = False
 
@@ -990,7 +1030,11 @@ def run(ctx):
             else:
                 ctx.broke("oracle.fixed:" + name, "fixed witness does not compile")
         handwritten(ctx)
-        format_exceptions_entries(ctx)
+        try:
+            fe_drv = ctx.driver()
+        except Exception:       # noqa - without the driver the oracle part still runs
+            fe_drv = None
+        format_exceptions_entries(ctx, fe_drv)
         if sets:
             b0 = sets[0][0]
             ctx.sample({"template": G.to_source(b0[0])[0][len(rt.PRELUDE):][:300], "crash_points": "all",
@@ -1027,7 +1071,7 @@ def replay(ctx, data):
         return not hits
     if isinstance(case, dict) and case.get("family") in FE_FAMILIES:
         tmp = type(ctx)(ctx.pid, "quick", data.get("seed", 0))
-        format_exceptions_entries(tmp)
+        format_exceptions_entries(tmp, None)
         keys = ("family", "k", "entry", "output_encoding", "format_exceptions")
         hits = [v for v in tmp.violations if v["site"] == data.get("site") and
                 all(v["case"].get(k) == case.get(k) for k in keys)]
